@@ -216,6 +216,25 @@ def r_centroid(ctx, rule='R-CENTROID'):
             ctx.check(guard, rule, p.split('::')[-2][-30:] + '/normalize-guard', f.loc(), 'divides by the norm only when norm > 0', '`%s` can divide by a zero/NaN norm' % p)
 
 
+LOSSY_OPTION = ('Option::<T>::filter', 'Option::<T>::take_if', 'Option::<T>::xor', 'Iterator::filter', 'Iterator::filter_map',
+                'Iterator::skip_while', 'Iterator::take_while', 'Iterator::find', 'Iterator::find_map')
+
+
+def r_choose(ctx, rule='R-FALLBACK'):
+    """the two-means seeds: `choose_two` / `choose` of a subset answer None only when the sampled ids cannot be fetched -- they
+    do not look at the *values* (identical, zero, NaN vectors are data like any other; the callers unwrap the answer)"""
+    F = ctx.F
+    fs = [f for f in F.lib_fns() if f.path.startswith('parallel::ImmutableSubsetLeafs') and f.path.endswith(('::choose_two', '::choose'))]
+    if not ctx.need(len(fs) >= 2, rule, 'ImmutableSubsetLeafs::choose_two / choose'):
+        return
+    for f in fs:
+        lossy = [short(c.callee) for g in F.family(f) for c in g.calls() if c.callee.endswith(LOSSY_OPTION)]
+        cmpv = [short(c.callee) for g in F.family(f) for c in g.calls() if c.callee.endswith(('PartialEq::eq', 'PartialEq::ne', '::is_zero', 'f32>::is_nan'))
+                or (c.callee.endswith('::as_bytes') and 'UnalignedVector' in c.callee)]
+        ctx.check(not lossy and not cmpv, rule, 'sampling/' + f.path.rsplit('::', 1)[1], f.loc(), 'samples by rank only; None only when a sampled id cannot be fetched',
+                  '`%s` can drop a sampled pair depending on the vectors themselves (%s): the split code unwraps the answer, so degenerate data (duplicates, zero vectors) would panic the build' % (f.path, sorted(set(lossy + cmpv))))
+
+
 def run(ctx):
     ctx.explanation = EXPL
     ctx.trusted = ['rustc nightly MIR construction', 'ordered_float::OrderedFloat is a total order incl. NaN']
@@ -223,6 +242,7 @@ def run(ctx):
     sr.r_sign_agreement(ctx)
     sr.r_random_zero(ctx)
     r_fallback(ctx)
+    r_choose(ctx)
     r_centroid(ctx)
     from props import C11
     C11.r_forms(ctx)
